@@ -197,8 +197,10 @@ func (x *xworld) apply(op Op) (string, string) {
 				return "ok", ""
 			}
 			before := x.history()
-			x.mk.PurgeRelayMetrics(x.mctx)
-			return "ok", before + "|" + x.history()
+			ectx := x.mctx.WithEventManager(sdk.NewEventManager())
+			x.mk.PurgeRelayMetrics(ectx)
+			// the event sequence of the call is part of what must agree (a discarded branch has its own manager)
+			return "ok", before + "|" + x.history() + "|" + eventsDigest(ectx.EventManager().Events())
 		})
 	case "jail":
 		return guarded(func() (string, string) {
@@ -577,8 +579,8 @@ func emitPurgeCase(run *emit.Run, prefix []Op, o stepOut, nontrivial bool) {
 		}
 		return m
 	}
-	ba := strings.SplitN(o.Obs, "|", 2)
-	if len(ba) != 2 {
+	ba := strings.SplitN(o.Obs, "|", 3)
+	if len(ba) < 2 {
 		return
 	}
 	before, after := parse(ba[0]), parse(ba[1])
